@@ -39,7 +39,8 @@ def run(cx):
     cx.rule("C13.R3", "no lock is held while a connection is served: no guard acquired before the job call in the pool worker is alive at the job, and the acceptor holds no guard across accept()")
     cx.rule("C13.R5", "a worker that died is never counted as idle: the pool's busy counter is decremented only in the worker loop, behind the normal return of the job (no Drop impl or helper releases the slot during unwinding) — the growth test `busy >= workers` then still starts a replacement for a worker whose job panicked")
     cx.rule("C13.R4", "a connection's end ends its job: reader and writer handed to handle() are the two halves of the captured stream, and end-of-input on that stream leaves the worker loop")
-    r1(cx); r2(cx); r3(cx); r4(cx); r5(cx)
+    cx.rule("C13.R6", "waiting for the next connection does not reconfigure the socket connections inherit from: Listener::accept() (helpers included) sets no socket option (read/write timeout, non-blocking mode, setsockopt) — an accepted TCP socket inherits SO_RCVTIMEO and friends from the listener, so a timeout meant for accept() would cut off every peer that is silent for that long")
+    r1(cx); r2(cx); r3(cx); r4(cx); r5(cx); r6(cx)
 
 
 def r1(cx):
@@ -244,3 +245,19 @@ def r5(cx):
             cx.check(not on_unwind and jobs[0].target is not None and d.bb in ncfg.reach(jobs[0].target), "C13.R5", key, site,
                      "the decrement is reachable from the job's unwind edge (or not from its normal return)", note_ok="behind the job's normal return only")
     cx.floor("C13.R5", "decrements of the busy counter", n, 1)
+
+
+SOCKOPT_CALLS = ("=set_read_timeout", "=set_write_timeout", "=set_nonblocking", "=setsockopt", "=set_ttl", "=set_nodelay", "=set_linger", "=ioctl")
+
+def r6(cx):
+    accs = [b for b in cx.mir.bodies("varlink") if b.promoted is None and b.path.endswith("Listener::accept")]
+    if not accs: raise AnchorMissing("Listener::accept")
+    for b in accs:
+        cx.saw(b)
+        opts = [t for t in b.calls(*SOCKOPT_CALLS)]
+        cx.check(not opts, "C13.R6", "varlink:%s:no-socket-options" % b.path, b.sp,
+                 "accept() calls %s on the listening socket (%s): accepted sockets inherit it, so every connection is affected by what was meant for the wait" % (sorted({t.callee.name for t in opts}), opts[0].sp if opts else ""),
+                 note_ok="waits with select(); the listener's options are untouched")
+    # the matcher is alive: listen() itself does configure the listener once, before the first accept (C16.R6)
+    ls = cx.mir.one("varlink", "server::listen")
+    cx.floor("C13.R6", "socket-option calls seen in listen() (positive control of the matcher)", len(ls.calls(*SOCKOPT_CALLS)), 1)
